@@ -472,10 +472,7 @@ impl<'a> Interpreter<'a> {
                                     } else if let Some(CelValue::Type(type_name)) =
                                         self.get_type_by_name(&func_name)
                                     {
-                                        self.refuse_clock_while_folding(type_name, &args)?;
-                                        stack.push_val(self.call_with_args(args, |a| {
-                                            construct_type(type_name, a)
-                                        })?);
+                                        stack.push_val(self.construct(type_name, args)?);
                                     } else if self.is_compile_time() {
                                         // May be bound at run time, stop constant folding
                                         return Err(CelError::binding(&func_name));
@@ -486,10 +483,7 @@ impl<'a> Interpreter<'a> {
                                     }
                                 }
                                 CelValue::Type(type_name) => {
-                                    self.refuse_clock_while_folding(&type_name, &args)?;
-                                    stack.push_val(
-                                        self.call_with_args(args, |a| construct_type(&type_name, a))?,
-                                    );
+                                    stack.push_val(self.construct(&type_name, args)?);
                                 }
                                 other => stack.push_val(
                                     CelValue::from_err(CelError::runtime(&format!(
@@ -600,10 +594,26 @@ impl<'a> Interpreter<'a> {
         self.bindings.map_or(false, |b| b.is_compile_time())
     }
 
+    /// Calls the constructor of `type_name` on the evaluated arguments (see `call_with_args`
+    /// for failing arguments).
+    fn construct(&self, type_name: &str, args: Vec<CelValue>) -> CelResult<CelValue> {
+        let arg_values = match self.resolve_args(args) {
+            Ok(arg_values) => arg_values,
+            Err(err) if self.is_compile_time() => return Err(err),
+            Err(err) => return Ok(CelValue::from_err(err)),
+        };
+        self.refuse_clock_while_folding(type_name, &arg_values)?;
+        Ok(construct_type(type_name, arg_values))
+    }
+
     /// `timestamp()` without arguments reads the wall clock, so it is never constant folded
-    /// and is evaluated on every execution instead.
+    /// and is evaluated on every execution instead. Overloads are selected with missing
+    /// arguments read as null, so `timestamp(null)` is the same call.
     fn refuse_clock_while_folding(&self, type_name: &str, args: &[CelValue]) -> CelResult<()> {
-        if self.is_compile_time() && type_name == "timestamp" && args.is_empty() {
+        if self.is_compile_time()
+            && type_name == "timestamp"
+            && args.iter().all(|arg| matches!(arg, CelValue::Null))
+        {
             return Err(CelError::runtime("timestamp() is not constant"));
         }
         Ok(())
